@@ -132,7 +132,9 @@ class SyncPool:
     def apply_async(self, fn, args=()):
         import pickle
 
-        r = _SyncResult(fn, args)
+        # arguments and results cross a process boundary in the real pool: copy them the same way,
+        # so that in-place mutation of e.g. include_dirs inside a task stays inside the task
+        r = _SyncResult(fn, pickle.loads(pickle.dumps(args)))
         if r.e is None:
             r.v = pickle.loads(pickle.dumps(r.v))
         return r
